@@ -64,6 +64,7 @@ func TestC08(t *testing.T) {
 	c08Concurrent(run)
 	c08Undeletable(run)
 	c08WriteFaults(run)
+	c13FileFaults(run, run.Rand()) // transient faults (a write, or a sync call, that fails once): acknowledged records are there once, whole
 	c13PartialWrites(run, run.Rand()) // the same runs, judged for C08: acknowledged records are there, whole and once
 	c08Crash(run)
 }
